@@ -44,7 +44,7 @@ STUB = ["no operator run in this world: the writer drives Database directly", "w
 ASSUMPTIONS = [
     "collections are homogeneous in value kind (plus None), as the quantifier lists them",
     "NaN and unset are the same thing for reals (documented normalisation), also for dict values",
-    "the reader's flag set is a permuted superset of the writer's",
+    "the reader's flag set is a permuted superset of the writer's, or lacks some of the writer's flags (armi learns them from the file)",
 ]
 TIERS = {"quick": (64, 80, 150), "thorough": (4000, 600, 240)}
 
@@ -58,6 +58,8 @@ KINDS = [
     "ragged2F", "arr2F",
     # equal-shaped arrays with unset values *inside* them (reals: NaN normalisation; text: no marker)
     "arrinner", "arrinnerstr",
+    # ragged 2-D entries, some of them with a zero-length dimension (shape (2, 0))
+    "raggedzerodim",
 ]
 PATTERNS = ["none", "some", "all", "first", "last", "allbutone"]
 LEVELS = ["block", "assembly", "component", "core"]
@@ -142,6 +144,9 @@ def make_collection(kind, n, pattern, seedv):
             return g.choice(fl) if g.next() % 3 == 0 else [g.choice(fl) for _ in range(g.randint(2, 3))]
         if kind == "raggednpscalar":
             return np.int32(g.choice(ints)) if g.next() % 3 == 0 else [g.choice(ints) for _ in range(g.randint(2, 3))]
+        if kind == "raggedzerodim":
+            k_ = g.next() % 3
+            return np.array([[g.choice(fl) for _ in range(k_)] for _ in range(2)], dtype=float)
         if kind == "arrinner":
             return [None if g.next() % 3 == 0 else g.choice(fl) for _ in range(3)]
         if kind == "arrinnerstr":
@@ -214,7 +219,7 @@ def same(written, got, real_kind, promote=False):
     w_unset = written is None or (real_kind and _isnan(written))
     g_unset = got is None or (real_kind and _isnan(got))
     if w_unset or g_unset:
-        if isinstance(written, (list, tuple, np.ndarray)) and len(written) == 0 and got is None:
+        if isinstance(written, (list, tuple, np.ndarray)) and (len(written) == 0 or (isinstance(written, np.ndarray) and written.size == 0)) and got is None:
             return None  # empty entry among ragged ones may come back unset
         if isinstance(written, (list, tuple, np.ndarray)) and got is None and all(x is None for x in JaggedFlat(written)):
             return None  # an entry holding nothing but unset values is an unset entry
@@ -289,7 +294,7 @@ def JaggedFlat(x):
         yield x
 
 
-REAL_KINDS = {"arrinner", "ragged2F", "arr2F", "float", "floatx", "npfloat32", "arr1", "arr2", "arrnan", "nested", "tuple", "ragged", "ragged2", "raggedscalar", "raggedempty", "dict", "dictx"}
+REAL_KINDS = {"raggedzerodim", "arrinner", "ragged2F", "arr2F", "float", "floatx", "npfloat32", "arr1", "arr2", "arrnan", "nested", "tuple", "ragged", "ragged2", "raggedscalar", "raggedempty", "dict", "dictx"}
 
 
 def is_sentinel(v):
@@ -350,7 +355,14 @@ def gen_plan(rng, index, tier):
     wflags = rng.sample(EXTRA_FLAGS, k)
     extra = [f for f in EXTRA_FLAGS if f not in wflags]
     rflags = wflags + rng.sample(extra, rng.randint(0, len(extra)))
+    if len(wflags) >= 3 and rng.random() < 0.3:
+        # the reader has never heard of two (or more) of the writer's flags: it learns them from the file
+        for nm in rng.sample(wflags, rng.randint(2, len(wflags) - 1)):
+            rflags.remove(nm)
     rng.shuffle(rflags)
+    if len(wflags) >= 2 and rng.random() < 0.2:
+        # the reader defined only the first few of the writer's flags, in the writer's order (or none)
+        rflags = wflags[: rng.randint(0, len(wflags) - 2)]
     cfg["flags"] = {"writer": wflags, "reader": rflags}
     if len(wflags) >= 2 and rng.random() < 0.6:
         # a second database written by a process that defined the same flags in another order: the
@@ -467,8 +479,12 @@ def writer(plan, scratch, log, second=False):
                     base = Flags.fromString(" ".join(extra)) if extra else None
                     b.p.flags = (f | base) if base is not None else f
                     names[int(b.p.serialNum)] = sorted(_flag_names(b.p.flags))
+                # the reactor itself (its flags are the first ones a reader decodes) ...
+                rextra = [nm for nm in cfg["flags"]["writer"] if g.next() % 2]
+                if rextra:
+                    r.p.flags = (r.p.flags | Flags.fromString(" ".join(rextra))) if r.p.flags else Flags.fromString(" ".join(rextra))
                 # ... and everything else that carries flags (components mostly carry exactly one)
-                for x in r.iterChildren(deep=True):
+                for x in [r] + list(r.iterChildren(deep=True)):
                     f = getattr(x.p, "flags", None)
                     if f is not None and int(x.p.serialNum) not in names:
                         names[int(x.p.serialNum)] = sorted(_flag_names(f))
